@@ -108,6 +108,23 @@ impl<const N: usize> Events<N> {
             .lock(|state| state.borrow_mut().reset_persist(kv, buf))
     }
 
+    /// Verification hook: [`Events::load_persist`] (what
+    /// `InteractionModel::startup` runs on a freshly created queue).
+    #[cfg(rs_matter_verif)]
+    pub fn verif_load_persist(
+        &self,
+        kv: &mut dyn KvBlobStore,
+        buf: &mut [u8],
+    ) -> Result<(), Error> {
+        self.load_persist(kv, buf)
+    }
+
+    /// Verification hook: the next event number to be handed out.
+    #[cfg(rs_matter_verif)]
+    pub fn verif_next_event_number(&self) -> EventNumber {
+        self.inner.lock(|state| state.borrow().next_event_number)
+    }
+
     pub(crate) fn fetch<F, R>(&self, f: F) -> R
     where
         F: FnOnce(EventsIter<'_, N>) -> R,
